@@ -378,6 +378,12 @@ def obligations(tier):
     from . import c09
 
     obs.append(Obligation("name-scheme-with-hetero-group", c09.h_name_scheme, dict(seq=["ALA", "HIS", "GLY"]), group="name-scheme", time_cap=1200, max_paths=100000))
+    # --drop-water removes waters only: a ligand that shares chain and residue number with a water stays (C07's record harness)
+    from . import c07
+
+    lk = ["hetatm-ligand-numbered-like-a-water", "hetatm-ligand", "hetatm-water", "atom-new-residue"]
+    for k in range(2):
+        obs.append(Obligation(f"drop-water-keeps-ligand-first={lk[k]}", c07.h_records, dict(nlines=2, kinds=lk, models="plain", drop=True, first=k), group="ligand-records", time_cap=1200, max_paths=100000))
     obs.append(Obligation("ligand-records-altloc", h_ligand_records, {}, group="ligand-records", time_cap=600))
     obs.append(Obligation("radii-table", table_radii, {}, kind="table", group="radii"))
     for ff in (0, 1):
